@@ -5,6 +5,7 @@ from .. import cfg as cfgmod
 from ..core import Undecided, node_text
 from ..idioms import is_false, is_name, is_true, negated
 from ..model import call_name, dotted, enclosing_func, is_none, names_in, walk_no_nested
+from ..snippet import inline_single_defs
 
 NORMAL = lambda a, b, lab: lab not in ('exc', 'raise', 'assert')  # noqa: E731
 
@@ -115,6 +116,50 @@ def _close_discipline(p, mod, fd, c):
         if not users:
             return False, '{}.{}() is not called from a finally block by the code that creates the object'.format(cls.name, closer.name)
         return True, 'handle kept on the object; {}.{}() closes it and is called in the creator\'s finally'.format(cls.name, closer.name)
+    # idiom 2b: `stream = open(..)` directly followed by `flag = True`, inside a try whose finally closes the stream under the flag
+    if isinstance(st, ast.Assign) and len(st.targets) == 1 and isinstance(st.targets[0], ast.Name) and st.value is c:
+        svar = st.targets[0].id
+        t = st.parent
+        while t is not None and not (isinstance(t, ast.Try) and t.finalbody and any(st is x for b in t.body for x in ast.walk(b))):
+            t = getattr(t, 'parent', None)
+        if t is None:
+            return None, 'open() result handling not recognised: `{}`'.format(node_text(st))
+        guards = [(fs, x) for fs in t.finalbody if isinstance(fs, ast.If) and isinstance(fs.test, ast.Name) for x in ast.walk(fs) if isinstance(x, ast.Call) and dotted(x.func) == svar + '.close' and any(x is y for b in fs.body for y in ast.walk(b))]
+        if not guards:
+            return None, 'the finally block does not close `{}` under a plain flag'.format(svar)
+        fvar = guards[0][0].test.id
+        blk = None
+        for field in ('body', 'orelse', 'finalbody'):
+            seq = getattr(st.parent, field, None)
+            if isinstance(seq, list) and st in seq:
+                blk = seq
+        nxt = blk[blk.index(st) + 1] if blk is not None and blk.index(st) + 1 < len(blk) else None
+        if not (isinstance(nxt, ast.Assign) and len(nxt.targets) == 1 and is_name(nxt.targets[0], fvar) and is_true(nxt.value)):
+            return False, 'the stream opened here is not followed at once by `{} = True`: the finally block, which closes `{}` only under that flag, leaves it open'.format(fvar, svar)
+        # the flag is raised nowhere else (a standard stream must not be closed) and starts False before the try
+        def bound_value(n, var):
+            """the expression an assignment statement binds to `var` (None when it cannot be told)"""
+            if len(n.targets) != 1:
+                return None
+            tg = n.targets[0]
+            if is_name(tg, var):
+                return n.value
+            if isinstance(tg, (ast.Tuple, ast.List)) and isinstance(n.value, (ast.Tuple, ast.List)) and len(tg.elts) == len(n.value.elts):
+                for te, ve in zip(tg.elts, n.value.elts):
+                    if is_name(te, var):
+                        return ve
+            return None
+        sets = [n for n in walk_no_nested(fd) if isinstance(n, ast.Assign) and any(is_name(x, fvar) for tg in n.targets for x in ast.walk(tg))]
+        for n in sets:
+            bv = bound_value(n, fvar)
+            if n is nxt or (bv is not None and is_false(bv)):
+                continue
+            return None, 'the close flag `{}` is also assigned at line {}'.format(fvar, n.lineno)
+        pre_f = [n for n in fd.body if isinstance(n, ast.Assign) and n.lineno < t.lineno and bound_value(n, fvar) is not None and is_false(bound_value(n, fvar))]
+        pre_s = [n for n in fd.body if isinstance(n, ast.Assign) and n.lineno < t.lineno and bound_value(n, svar) is not None]
+        if not pre_f or not pre_s:
+            return None, 'stream/flag are not pre-initialised before the try'
+        return True, 'opened inside try and flagged at once; finally closes it under the flag'
     return None, 'open() result handling not recognised: `{}`'.format(node_text(st))
 
 
@@ -165,8 +210,11 @@ def rule_rs_epipe(cx, rep, port='py'):
     ok_flag = flag_sets and all(any(g.dominates(f, r, dom) for f in flag_sets) for r in rets)
     rep.decide(bool(ok_flag), 'pipe flag', flag_sets[0].ast if flag_sets else h, 'broken_pipe is set before returning False', 'the broken_pipe flag is not set on the path that returns False: finish() would flush/close the dead stream')
     # success path returns True after the separator was written
-    succ = [r for r in walk_no_nested(t) if isinstance(r, ast.Return) and any(r is x for b in t.body for x in ast.walk(b))]
-    rep.decide(len(succ) == 1 and is_true(succ[0].value), 'success verdict', succ[0] if succ else t, 'a completed write returns True', 'a completed write does not return True')
+    # (the return may sit inside the try or behind it: what counts is every normal path from the last stream write to the exit)
+    last_w = [n for n in g.nodes if cfgmod.node_contains(n, lambda x: x is swrites[-1])]
+    is_ret_true = lambda n: n.kind == 'stmt' and isinstance(n.ast, ast.Return) and n.ast.value is not None and is_true(n.ast.value)  # noqa: E731
+    ok_succ = bool(last_w) and all(not g.exists_path(n, lambda x: x is g.exit, avoid=is_ret_true, edge_ok=NORMAL) and g.exists_path(n, is_ret_true, edge_ok=NORMAL) for n in last_w)
+    rep.decide(ok_succ, 'success verdict', swrites[-1], 'a completed write returns True', 'a completed write does not return True')
     # finish(): nothing when the flag is set
     fin = ms['finish']
     first = fin.body[0]
@@ -188,15 +236,43 @@ def rule_rs_epipe(cx, rep, port='py'):
             n_h += 1
             raises = [r for r in ast.walk(ast.Module(body=h.body, type_ignores=[])) if isinstance(r, ast.Raise) and r.exc is None]
             bad = None
+            py2_only = cls3 == 'BrokenPipeError' and tname != cls3
+
+            def truth(e):
+                """3-valued truth on Python 3, where the caught class `tname` is BrokenPipeError (not IOError / OSError)"""
+                if isinstance(e, ast.Constant):
+                    return bool(e.value)
+                if isinstance(e, ast.UnaryOp) and isinstance(e.op, ast.Not):
+                    v = truth(e.operand)
+                    return None if v is None else (not v)
+                if isinstance(e, ast.BoolOp):
+                    vals = [truth(v) for v in e.values]
+                    if isinstance(e.op, ast.And):
+                        return False if False in vals else (True if all(v is True for v in vals) else None)
+                    return True if True in vals else (False if all(v is False for v in vals) else None)
+                if isinstance(e, ast.IfExp):
+                    c = truth(e.test)
+                    if c is None:
+                        a, b_ = truth(e.body), truth(e.orelse)
+                        return a if a == b_ else None
+                    return truth(e.body if c else e.orelse)
+                if isinstance(e, ast.Compare) and len(e.ops) == 1 and py2_only:
+                    l_, r_ = dotted(e.left), dotted(e.comparators[0])
+                    if {l_, r_} & {tname} and ({l_, r_} - {tname}) <= {'IOError', 'OSError', 'EnvironmentError'} and l_ != r_:
+                        if isinstance(e.ops[0], (ast.Eq, ast.Is)):
+                            return False
+                        if isinstance(e.ops[0], (ast.NotEq, ast.IsNot)):
+                            return True
+                return None
             for r in raises:
-                guards = []
-                q = getattr(r, 'parent', None)
+                dead = False
+                ch, q = r, getattr(r, 'parent', None)
                 while q is not None and q is not h:
                     if isinstance(q, ast.If):
-                        # a conjunction is false as soon as one conjunct is
-                        guards.extend(q.test.values if isinstance(q.test, ast.BoolOp) and isinstance(q.test.op, ast.And) else [q.test])
-                    q = getattr(q, 'parent', None)
-                dead = any(isinstance(t_, ast.Compare) and len(t_.ops) == 1 and isinstance(t_.ops[0], (ast.Eq, ast.Is)) and dotted(t_.left) == tname and dotted(t_.comparators[0]) in ('IOError', 'OSError') and cls3 == 'BrokenPipeError' and tname != cls3 for t_ in guards)
+                        v = truth(q.test)
+                        if v is not None and ((ch in q.body and v is False) or (ch in q.orelse and v is True)):
+                            dead = True
+                    ch, q = q, getattr(q, 'parent', None)
                 if not dead:
                     bad = r
             if bad is not None:
@@ -445,30 +521,50 @@ def rule_fl_fields(cx, rep, port):
         cls = p.cls(mod, cname)
         m = [x for x in cls.body if isinstance(x, ast.FunctionDef) and x.name == mname][0]
         key = '{}.{}'.format(cname, mname)
-        stores = [n for n in walk_no_nested(m) if (isinstance(n, ast.Assign) and isinstance(n.targets[0], ast.Subscript) and dotted(n.targets[0].value) == 'self.fields_info') or (isinstance(n, ast.Call) and isinstance(n.func, ast.Attribute) and n.func.attr == 'set' and dotted(n.func.value) == 'self.fields_info')]
+        def is_store(n):
+            if isinstance(n, ast.Assign) and isinstance(n.targets[0], ast.Subscript) and dotted(n.targets[0].value) == 'self.fields_info':
+                return True
+            return isinstance(n, ast.Call) and isinstance(n.func, ast.Attribute) and n.func.attr in ('set', 'setdefault') and dotted(n.func.value) == 'self.fields_info' and len(n.args) == 2
+        stores = [n for n in walk_no_nested(m) if is_store(n)]
         if len(stores) != 1:
-            rep.violated(key + ' store', m, 'field-count bookkeeping has {} stores'.format(len(stores)))
+            if not stores:
+                rep.undecided(key + ' store', m, 'no store into the field-count table was recognised in {}'.format(key))
+            else:
+                rep.violated(key + ' store', m, 'field-count bookkeeping has {} stores'.format(len(stores)))
             continue
         s = stores[0]
-        iff, in_body = _enclosing_if(s)
         okg = False
-        if iff is not None and in_body:
-            t = iff.test
-            if isinstance(t, ast.Compare) and isinstance(t.ops[0], ast.NotIn) and dotted(t.comparators[0]) == 'self.fields_info':
-                okg = True
-            if negated(t) is not None and isinstance(negated(t), ast.Call) and isinstance(negated(t).func, ast.Attribute) and negated(t).func.attr == 'has':
-                okg = True
+        if isinstance(s, ast.Call) and s.func.attr == 'setdefault':
+            okg = True        # dict.setdefault is insert-if-absent
+        else:
+            iff, in_body = _enclosing_if(s)
+            if iff is not None and in_body:
+                t = iff.test
+                if isinstance(t, ast.Compare) and isinstance(t.ops[0], ast.NotIn) and dotted(t.comparators[0]) == 'self.fields_info':
+                    okg = True
+                if negated(t) is not None and isinstance(negated(t), ast.Call) and isinstance(negated(t).func, ast.Attribute) and negated(t).func.attr == 'has':
+                    okg = True
         rep.decide(okg, key + ' store', s, 'first record number per field count (insert-if-absent)', 'the record number of a field count is overwritten by later records: the warning would not cite the first record of each length')
         val = s.value if isinstance(s, ast.Assign) else s.args[1]
         nr = dotted(val)
         rep.decide(nr in ('self.NR', 'self.nr'), key + ' value', s, 'stores the current record number', 'stores `{}` instead of the current record number'.format(node_text(val)))
         keyexpr = s.targets[0].slice if isinstance(s, ast.Assign) else s.args[0]
-        kdef = [n for n in walk_no_nested(m) if isinstance(n, ast.Assign) and isinstance(keyexpr, ast.Name) and is_name(n.targets[0], keyexpr.id)]
-        okk = kdef and isinstance(kdef[0].value, ast.Call) and dotted(kdef[0].value.func) == 'len'
+        keyexpr = inline_single_defs(keyexpr, m, depth=2)
+        okk = (isinstance(keyexpr, ast.Call) and dotted(keyexpr.func) == 'len' and len(keyexpr.args) == 1) or (isinstance(keyexpr, ast.Attribute) and keyexpr.attr == 'length')
         rep.decide(bool(okk), key + ' key', s, 'keyed by the number of fields of the record', 'field-count bookkeeping is not keyed by len(record)')
-        # counter must be incremented before the store
+        # counter must be incremented before the store (on every path to the store)
         incs = [n for n in walk_no_nested(m) if isinstance(n, ast.AugAssign) and dotted(n.target) in ('self.NR', 'self.nr')]
-        rep.decide(len(incs) == 1 and incs[0].lineno < s.lineno, key + ' counter', incs[0] if incs else m, 'record counter is incremented before it is recorded (1-based)', 'the record counter is not incremented before it is recorded')
+        okc = False
+        if len(incs) == 1:
+            g = cfgmod.CFG(m)
+            st_of = s
+            while not isinstance(st_of, ast.stmt):
+                st_of = st_of.parent
+            a, b_ = g.stmt_nodes(incs[0]), g.stmt_nodes(st_of)
+            if a and b_:
+                dom = g.dominators()
+                okc = all(any(g.dominates(x, y, dom) for x in a) for y in b_)
+        rep.decide(okc, key + ' counter', incs[0] if incs else m, 'record counter is incremented before it is recorded (1-based)', 'the record counter is not incremented before it is recorded')
         gw = [x for x in cls.body if isinstance(x, ast.FunctionDef) and x.name == 'get_warnings'][0]
         tests = [n for n in walk_no_nested(gw) if isinstance(n, ast.If) and 'fields_info' in node_text(n.test)]
         okt = len(tests) == 1 and isinstance(tests[0].test, ast.Compare) and isinstance(tests[0].test.ops[0], ast.Gt) and isinstance(tests[0].test.comparators[0], ast.Constant) and tests[0].test.comparators[0].value == 1
